@@ -70,6 +70,7 @@ func DedupeConstBlocks(src []byte) ([]byte, int, error) {
 }
 
 var pkgClause = regexp.MustCompile(`(?m)^package\s+\w+`)
+var useDirective = regexp.MustCompile(`(?m)^//vf:use\s+(\w+)`)
 
 // BuildOverlay computes the overlay: normalised common.go plus harness files.
 // harnessRoot mirrors the module layout: <harnessRoot>/<rel pkg dir>/zz_vf_*.go.
@@ -106,6 +107,16 @@ func BuildOverlay(repoSrc, harnessRoot, apiFile string, only map[string]bool) (m
 		}
 		dst := filepath.Join(repoSrc, rel, filepath.Base(p))
 		ov[dst] = src
+		// shared specification files requested by //vf:use <name>
+		for _, m := range useDirective.FindAllSubmatch(src, -1) {
+			sp := filepath.Join(filepath.Dir(apiFile), "spec", string(m[1])+".go")
+			ssrc, err := os.ReadFile(sp)
+			if err != nil {
+				return fmt.Errorf("%s: //vf:use %s: %v", p, m[1], err)
+			}
+			pcl := pkgClause.Find(src)
+			ov[filepath.Join(repoSrc, rel, "zz_vf_spec_"+string(m[1])+".go")] = pkgClause.ReplaceAll(ssrc, pcl)
+		}
 		// api file with the package clause of this harness
 		pc := pkgClause.Find(src)
 		if pc == nil {
